@@ -153,7 +153,7 @@ def main():
         checks=checks,
         not_applicable=na,
         notes="Exit codes of every check: 0 no violation on anything explored (INCONCLUSIVE obligations are listed and counted in the evidence, never reported as success of that obligation); 1 replayed violation (VIOLATION line); 2 harness error. known_findings.json lists recorded/fixed defects. " +
-              'Last complete run of every thorough command (unchanged tree, seed 0, 16 cores, one check at a time; all exit 0, every obligation discharged): C01 243 obligations / 31137 paths / 8m59s; C02 275 obligations / 29724 paths / 8m38s; C03 248 obligations / 24468 paths / 3m48s; C04 200 obligations / 24757 paths / 9m17s; C05 222 obligations / 22742 paths / 4m59s; C06 165 obligations / 18613 paths / 4m29s; C07 93 obligations / 10460 paths / 2m00s; C08 17 obligations / 4285 paths / 8m40s; C09 155 obligations / 23511 paths / 16m43s; C10 21 obligations / 17196 paths / 4m05s; C11 92 obligations / 13169 paths / 4m04s; C12 22 obligations / 4645 paths / 1m07s; C13 47 obligations / 2548 paths / 1m00s; C14 45 obligations / 26298 paths / 7m20s; C15 16 obligations / 3742 paths / 1m06s; C16 15 obligations / 1530 paths / 0m43s; C17 73 obligations / 2988 paths / 1m13s; C18 111 obligations / 3160 paths / 1m38s; C20 33 obligations / 5281 paths / 0m38s; total 90 min. After the nine obligations of round 5 were added, the thorough commands of the affected properties (C02 C04 C06 C07 C09 C11 C12 C14 C20) were run once more: all exit 0, every obligation discharged (build/thorough_sanity.out; e.g. C09 156 obligations in 14m28s, C04 201 in 8m58s).',
+              'Last complete run of every thorough command (unchanged tree, seed 0, 16 cores, one check at a time; all exit 0, every obligation discharged): C01 243 obligations / 31137 paths / 8m59s; C02 275 obligations / 29724 paths / 8m38s; C03 248 obligations / 24468 paths / 3m48s; C04 200 obligations / 24757 paths / 9m17s; C05 222 obligations / 22742 paths / 4m59s; C06 165 obligations / 18613 paths / 4m29s; C07 93 obligations / 10460 paths / 2m00s; C08 17 obligations / 4285 paths / 8m40s; C09 155 obligations / 23511 paths / 16m43s; C10 21 obligations / 17196 paths / 4m05s; C11 92 obligations / 13169 paths / 4m04s; C12 22 obligations / 4645 paths / 1m07s; C13 47 obligations / 2548 paths / 1m00s; C14 45 obligations / 26298 paths / 7m20s; C15 16 obligations / 3742 paths / 1m06s; C16 15 obligations / 1530 paths / 0m43s; C17 73 obligations / 2988 paths / 1m13s; C18 111 obligations / 3160 paths / 1m38s; C20 33 obligations / 5281 paths / 0m38s; total 90 min. After the nine obligations of round 5 were added, the thorough commands of the affected properties (C02 C04 C06 C07 C09 C11 C12 C14 C20) were run once more: all exit 0, every obligation discharged (e.g. C09 156 obligations in 14m28s, C04 201 in 8m58s).',
     )
     with open('/verif/MANIFEST.json', 'w') as f:
         json.dump(m, f, indent=1)
